@@ -75,7 +75,12 @@ class RunningProcess(Generic[_T]):
 
     def send_signal(self, sig: int) -> None:
         if self.process.pid:
-            os.kill(self.process.pid, sig)
+            try:
+                os.kill(self.process.pid, sig)
+            except ProcessLookupError:
+                # The process has already exited, e.g., the request raced the
+                # completion. Ignored as in terminate() and kill().
+                pass
 
     def terminate(self) -> None:
         self.process.terminate()
